@@ -294,6 +294,17 @@ inline Verdict evaluate(const Cfg& cfg, const std::vector<Use>& uses) {
    return model_finish(cfg, m, unspec, why, order);
 }
 
+// the same with a source per use: uses from a file or the environment do not count for the cardinality (documented)
+inline Verdict evaluate_sources(const Cfg& cfg, const std::vector<Use>& uses, const std::vector<bool>& from_argv) {
+   MState m; model_init(cfg, m); bool unspec = false; std::string why; std::vector<int> order;
+   for (size_t i = 0; i < uses.size(); ++i) {
+      std::string r = model_use(cfg, m, uses[i], from_argv[i], unspec, why);
+      if (!r.empty()) { Verdict v; v.k = unspec ? UNSPEC : INVALID; v.reason = unspec ? why : r; return v; }
+      order.push_back(uses[i].arg);
+   }
+   return model_finish(cfg, m, unspec, why, order);
+}
+
 // ================================================================================================ speller
 // long-key prefixes that designate argument `ai` unambiguously (abbreviations enabled): proper prefixes p of its long key
 // such that no other long key starts with p. (Exact keys of other arguments start with themselves, so they are excluded.)
